@@ -12,17 +12,17 @@ Local Open Scope N_scope.
 (* ------------------------------------------------------------------ *)
 (* The number DFA on digit strings                                      *)
 
-Lemma num_run_app : forall a b m,
+Lemma num_run_app : forall (a b : list N) m,
   num_run m (a ++ b) = match num_run m a with Some m' => num_run m' b | None => None end.
 Proof.
   induction a as [|c a IH]; intros b m; cbn [app num_run]; [reflexivity|].
   destruct (num_next m c); [apply IH|reflexivity].
 Qed.
 
-Lemma all_digits_cons : forall c r, all_digits (c :: r) = true -> is_ascii_digit c = true /\ all_digits r = true.
+Lemma all_digits_cons : forall (c : N) (r : list N), all_digits (c :: r) = true -> is_ascii_digit c = true /\ all_digits r = true.
 Proof. intros c r H. unfold all_digits in *. cbn [forallb] in H. now apply andb_true_iff in H. Qed.
 
-Lemma num_run_digits : forall ds m, (m = M1 \/ m = MDot0 \/ m = ME0) -> all_digits ds = true ->
+Lemma num_run_digits : forall (ds : list N) m, (m = M1 \/ m = MDot0 \/ m = ME0) -> all_digits ds = true ->
   num_run m ds = Some m.
 Proof.
   induction ds as [|c r IH]; intros m Hm Hd; [reflexivity|].
@@ -30,7 +30,7 @@ Proof.
   destruct Hm as [Hm|[Hm|Hm]]; subst m; cbn [num_next]; rewrite Hc; apply IH; auto.
 Qed.
 
-Lemma num_run_digits1 : forall ds m m', (m = MDot /\ m' = MDot0 \/ m = MESign /\ m' = ME0) ->
+Lemma num_run_digits1 : forall (ds : list N) m m', (m = MDot /\ m' = MDot0 \/ m = MESign /\ m' = ME0) ->
   ds <> [] -> all_digits ds = true -> num_run m ds = Some m'.
 Proof.
   intros [|c r] m m' Hm Hne Hd; [congruence|].
@@ -91,7 +91,7 @@ Proof. intros z Hz. unfold digits_of_Z. replace (Z.to_N z) with 0 by lia. reflex
 Lemma zeros_all_digits : forall n, all_digits (zeros n) = true.
 Proof. exact zeros_digits. Qed.
 
-Lemma json_number_render_pos : forall neg ds p c r,
+Lemma json_number_render_pos : forall (neg : bool) (ds : list N) (p : Z) (c : N) (r : list N),
   ds = c :: r -> is_digit19 c = true -> all_digits ds = true ->
   json_number (sign_bytes neg ++ render_pos ds p) = true.
 Proof.
@@ -99,23 +99,19 @@ Proof.
   assert (Hcd : is_ascii_digit c = true) by now apply digit19_digit.
   assert (Hc48 : (c =? 48) = false) by (unfold is_digit19 in Hc; lia).
   assert (Hr : all_digits r = true) by (subst ds; now apply all_digits_cons in Hd).
-  destruct (0 <=? p)%Z.
+  destruct (Z.leb_spec 0 p) as [Hp|Hp].
   - subst ds. cbn [app]. rewrite num_run_sign_first by exact Hcd. rewrite Hc48.
     rewrite num_run_digits; [reflexivity|now left|].
     rewrite all_digits_app, Hr. apply zeros_all_digits.
-  - destruct (0 <? Z.of_nat (List.length ds) + p)%Z eqn:Eip.
-    + set (n := Z.to_nat (Z.of_nat (List.length ds) + p)).
-      assert (Hn : (0 < n)%nat) by lia.
-      destruct n as [|n'] eqn:En; [lia|].
-      assert (Hlen : (S n' < List.length ds)%nat \/ (List.length ds <= S n')%nat) by lia.
+  - destruct (Z.ltb_spec 0 (Z.of_nat (List.length ds) + p)) as [Hip|Hip].
+    + remember (Z.to_nat (Z.of_nat (List.length ds) + p)) as n eqn:En.
+      assert (Hn : (0 < n < List.length ds)%nat) by lia.
+      destruct n as [|n']; [lia|].
       subst ds. cbn [firstn app]. rewrite num_run_sign_first by exact Hcd. rewrite Hc48.
       rewrite num_run_app, num_run_digits; [|now left|now apply all_digits_firstn].
       cbn [num_run num_next]. cbn [is_ascii_digit N.leb N.compare Pos.compare Pos.compare_cont andb N.eqb Pos.eqb].
       assert (Hsk : skipn (S n') (c :: r) <> []).
-      { cbn [skipn]. intro Hs. apply (f_equal (@List.length _)) in Hs. rewrite skipn_length in Hs. cbn [List.length] in *.
-        assert ((Z.of_nat (S (List.length r)) + p < Z.of_nat (S (List.length r)))%Z).
-        { destruct (0 <=? p)%Z eqn:E0 in |- *; lia. }
-        lia. }
+      { intro Hs. apply (f_equal (@List.length _)) in Hs. rewrite skipn_length in Hs. cbn [List.length] in *. lia. }
       rewrite (num_run_digits1 _ MDot MDot0); [reflexivity|now left|exact Hsk|].
       apply all_digits_skipn. unfold all_digits. cbn [forallb]. rewrite Hcd. exact Hr.
     + cbn [app]. rewrite (num_run_sign_first neg 48) by reflexivity. cbn [N.eqb Pos.eqb].
@@ -124,3 +120,110 @@ Proof.
       * subst ds. destruct (zeros _); discriminate.
       * rewrite all_digits_app, zeros_all_digits. exact Hd.
 Qed.
+
+(* "0", "0.0...0": the digit string 0 with a non-positive exponent is still a JSON number *)
+Lemma json_number_render_pos_zero : forall (neg : bool) (p : Z), (p <= 0)%Z ->
+  json_number (sign_bytes neg ++ render_pos [48] p) = true.
+Proof.
+  intros neg p Hp. unfold json_number, render_pos.
+  destruct (Z.leb_spec 0 p) as [H0|H0].
+  - replace p with 0%Z by lia. destruct neg; reflexivity.
+  - cbn [List.length]. destruct (Z.ltb_spec 0 (Z.of_nat 1 + p)) as [Hip|Hip]; [lia|].
+    cbn [app]. rewrite (num_run_sign_first neg 48) by reflexivity. cbn [N.eqb Pos.eqb].
+    cbn [num_run num_next N.eqb Pos.eqb].
+    rewrite (num_run_digits1 _ MDot MDot0); [reflexivity|now left| |].
+    + destruct (zeros _); discriminate.
+    + rewrite all_digits_app, zeros_all_digits. reflexivity.
+Qed.
+
+(* ------------------------------------------------------------------ *)
+(* Exponent notation                                                    *)
+
+Lemma json_number_exp_tail : forall (m : mode) (x : Z), (m = M0 \/ m = M1 \/ m = MDot0) ->
+  match num_run m (101 :: (if (x <? 0)%Z then 45 else 43) :: digits_of_Z (Z.abs x)) with
+  | Some m' => num_final m'
+  | None => false
+  end = true.
+Proof.
+  intros m x Hm.
+  assert (H1 : num_next m 101 = Some ME) by (destruct Hm as [Hm|[Hm|Hm]]; subst m; reflexivity).
+  assert (H3 : num_run MESign (digits_of_Z (Z.abs x)) = Some ME0).
+  { apply (num_run_digits1 _ MESign ME0); [now right|apply digits_of_Z_nonempty|apply digits_of_Z_digits]. }
+  destruct (x <? 0)%Z; cbn [num_run]; rewrite H1; cbn [num_next N.eqb Pos.eqb orb]; rewrite H3; reflexivity.
+Qed.
+
+Lemma json_number_render_exp : forall (neg : bool) (ds : list N) (p : Z),
+  ds <> [] -> all_digits ds = true -> json_number (sign_bytes neg ++ render_exp ds p) = true.
+Proof.
+  intros neg ds p Hne Hd. unfold json_number, render_exp.
+  destruct ds as [|d1 rest]; [congruence|].
+  apply all_digits_cons in Hd. destruct Hd as [H1 Hrest].
+  destruct rest as [|d2 rest'].
+  - rewrite num_run_sign_first by exact H1.
+    apply json_number_exp_tail. destruct (d1 =? 48); auto.
+  - rewrite num_run_sign_first by exact H1.
+    assert (Hdot : forall m, m = M0 \/ m = M1 -> num_next m 46 = Some MDot)
+      by (intros m [Hm|Hm]; subst m; reflexivity).
+    cbn [num_run]. rewrite Hdot by (destruct (d1 =? 48); auto).
+    rewrite num_run_app. rewrite (num_run_digits1 _ MDot MDot0); [|now left|discriminate|exact Hrest].
+    apply json_number_exp_tail. auto.
+Qed.
+
+(* ------------------------------------------------------------------ *)
+(* A candidate whose digits are all zero is never accepted by format_f  *)
+
+Lemma dval_zeros : forall n, dval (48 :: zeros n) 0 = 0%Z.
+Proof.
+  intro n. pose proof (drun_fst (48 :: zeros n) (0, 0)%Z) as H.
+  change (fst (0, 0)%Z) with 0%Z in H. rewrite <- H.
+  change (drun (48 :: zeros n) (0, 0)%Z) with (drun (zeros n) (dstep (0, 0)%Z 48)).
+  change (dstep (0, 0)%Z 48) with (0, 0)%Z. now rewrite drun_zeros.
+Qed.
+
+Lemma parse_zero_candidate : forall (neg : bool) (p : Z), (0 < p)%Z ->
+  exists z, parse_float (sign_bytes neg ++ render_pos [48] p) = PFok (S754_zero z).
+Proof.
+  intros neg p Hp. unfold render_pos. destruct (Z.leb_spec 0 p) as [_|H0]; [|lia].
+  assert (Hpl : parse_float ([48] ++ zeros p) = PFok (S754_zero false)).
+  { pose proof (parse_float_plain ([48] ++ zeros p) [] false ltac:(discriminate)) as H.
+    rewrite !app_nil_r in H. rewrite H; [| |reflexivity|reflexivity].
+    - cbn [app]. rewrite dval_zeros. reflexivity.
+    - rewrite all_digits_app, zeros_all_digits. reflexivity. }
+  destruct neg; cbn [sign_bytes app] in *.
+  - rewrite parse_float_sign by reflexivity.
+    match goal with |- exists z, pf_neg ?X = _ => replace X with (PFok (S754_zero false)) by (symmetry; exact Hpl) end.
+    cbn [pf_neg f_neg SFopp negb]. eauto.
+  - eauto.
+Qed.
+
+(* ------------------------------------------------------------------ *)
+(* Hnum_syntax, discharged                                              *)
+
+Theorem format_json_is_json_number : forall x b, format_json x = Some b -> json_number b = true.
+Proof.
+  intros x b H. destruct x as [s|s| |s m e]; cbn [format_json] in H; try discriminate.
+  - inversion H; subst b. destruct s; vm_compute; reflexivity.
+  - destruct (f_ltb (f_abs (S754_finite s m e)) f_1e_6 || negb (f_ltb (f_abs (S754_finite s m e)) f_1e21)).
+    + destruct (shortest m e) as [d p]. inversion H; subst b.
+      apply json_number_render_exp; [apply digits_of_Z_nonempty|apply digits_of_Z_digits].
+    + inversion H; subst b. unfold format_f.
+      destruct (pf_is (parse_float (fmt_candidate s m e)) (S754_finite s m e)) eqn:Hacc.
+      * unfold fmt_candidate in *. destruct (shortest m e) as [d p].
+        destruct (Z_lt_le_dec 0 d) as [Hd|Hd].
+        -- destruct (digits_of_Z_head d Hd) as (c & r & Hds & Hc).
+           eapply json_number_render_pos; [exact Hds|exact Hc|]. apply digits_of_Z_digits.
+        -- rewrite (digits_of_Z_nonpos d Hd) in *.
+           destruct (Z_lt_le_dec 0 p) as [Hp|Hp]; [|now apply json_number_render_pos_zero].
+           exfalso. destruct (parse_zero_candidate s p Hp) as (z & Hz). rewrite Hz in Hacc.
+           cbn [pf_is f_same] in Hacc. discriminate.
+      * unfold fmt_exact. destruct (0 <=? e)%Z.
+        -- assert (Hz : (0 < Z.pos m * 2 ^ e)%Z) by (apply Z.mul_pos_pos; [lia|apply Z.pow_pos_nonneg; lia]) || idtac.
+           destruct (Z_lt_le_dec 0 (Z.pos m * 2 ^ e)) as [Hd|Hd].
+           ++ destruct (digits_of_Z_head _ Hd) as (c & r & Hds & Hc).
+              eapply json_number_render_pos; [exact Hds|exact Hc|]. apply digits_of_Z_digits.
+           ++ rewrite (digits_of_Z_nonpos _ Hd). now apply json_number_render_pos_zero.
+        -- assert (Hz : (0 < Z.pos m * pow5 (- e))%Z) by (apply Z.mul_pos_pos; [lia|apply pow5_pos]).
+           destruct (digits_of_Z_head _ Hz) as (c & r & Hds & Hc).
+           eapply json_number_render_pos; [exact Hds|exact Hc|]. apply digits_of_Z_digits.
+Qed.
+Print Assumptions format_json_is_json_number.
